@@ -11,6 +11,7 @@ import Rare.Proofs.C15TraceTail
 import Rare.Proofs.C15Trunc
 import Rare.Proofs.C15Starve
 import Rare.Proofs.C15Api
+import Rare.Proofs.C15Rename
 import Rare.Model.C15Wiring
 import Rare.Gen.C15
 /-!
@@ -34,8 +35,9 @@ Assumptions (not proved): the atomicity granularity of the model; inotify report
 Remove / Create of the followed name, after the operation, in order, without queue overflow; the
 Go scheduler is fair to the fsnotify goroutine and the reader (liveness statements are of the form
 "some run of kernel goroutine + reader reaches …" together with a measure that every such step
-decreases).  Out of the model: a writer that keeps appending to a file after it was unlinked,
-rename (notify.go does not watch `Rename`).  In-place truncation (copytruncate) is outside the property; what
+decreases).  Out of the model: a writer that keeps appending to a file after it was unlinked or
+renamed away, a file renamed ONTO the followed path.  Rotation by rename (the followed file moved away) is
+in the model since the `fix:` commit 4cc14c1 (section "rotation by rename").  In-place truncation (copytruncate) is outside the property; what
 the readers do then is modelled by the extended systems of `Rare.Model.C15Trunc` and recorded in the
 section "in-place truncation" below.
 -/
@@ -1115,6 +1117,68 @@ example : (Api.run (init [97, 98, 99]) [.read 2, .append [100, 101], .drain, .ap
     [.bytes [97, 98], .ok, .ok, .ok, .bytes [102], .ok, .eof] := by decide
 
 end Api
+
+/-! ## rotation by rename (`mv file file.1`, new file at the path) -/
+
+/-- **rename_is_removal_for_reopen.**  Re-open follow (-F), notify reader as configured in /repo: the writer
+    step "the followed file is renamed away" is the step "the followed file is removed" (the watcher turns
+    the Rename event into the delete signal – `skeleton_matches_source` ties that row of the switch to
+    /repo), so every run with rotations by rename is a run of the system all theorems above are about:
+    the delivered stream is one segment per file, every file opened after the start is read from its
+    beginning, none twice (`reopen_reads_new_from_start`), `Read` never ends (`blocks_while_exists`), … -/
+theorem rename_is_removal_for_reopen (c0 : Option (List β)) (tail : Bool) {s : NSt β}
+    (hr : NReachR (srcN true) (ninit c0 tail) s) :
+    NReach (srcN true) (ninit c0 tail) s ∧ s.rd ≠ .ended ∧
+    (∀ h ∈ s.hist ++ s.f.toList, h.start = 0 ∨ (h.ino = 0 ∧ h.start = start0 c0 tail)) ∧
+    ((s.hist ++ s.f.toList).map (·.ino)).Pairwise (· < ·) ∧
+    s.delivered = segments s.fs.content (s.hist ++ s.f.toList) := by
+  have h := nreachR_is_nreach (cfg := srcN true) rfl hr
+  refine ⟨h, ?_, reopen_reads_new_from_start c0 tail true h⟩
+  intro he
+  have := (blocks_while_exists c0 tail true h he).1
+  cases this
+
+/-- …and the file created at the path after the rename IS followed: some run of the fsnotify goroutine and the
+    reader opens it (every run does: `reopen_steps_terminate`). -/
+theorem reopen_follows_after_rename (c0 : Option (List β)) (tail : Bool) {s : NSt β}
+    (hr : NReachR (srcN true) (ninit c0 tail) s) (j : Nat) (hp : s.fs.path = some j) :
+    ∃ s', NSysReach (srcN true) s s' ∧ onPath s' j :=
+  (reopen_eventually_opens_new c0 tail (nreachR_is_nreach (cfg := srcN true) rfl hr) j hp).2
+
+/-- Non-vacuity, the run that used to go wrong: `[1]` delivered, the file renamed away, a new file `[2,3]` at
+    the path: the Rename event becomes the delete signal, the reader re-opens and delivers `[2,3]`. -/
+example : ∃ s : NSt Nat, NReachR (srcN true) (ninit (some [1]) false) s ∧ s.delivered = [1, 2, 3] ∧
+    s.f = some ⟨1, 0, 2⟩ ∧ s.hist = [⟨0, 0, 1⟩] := by
+  have hr : NReachR (srcN true) (ninit (some [(1 : Nat)]) false) _ :=
+    .step (.step (.step (.step (.step (.step (.step (.step (.step (.step
+    (.refl (s0 := ninit (some [(1 : Nat)]) false))
+    (.base (.readSome _ ⟨0, 0, 0⟩ 1 rfl rfl (by decide) (by decide))))
+    (.rename _ 0 rfl)) (.base (.create _ rfl))) (.base (.append _ 1 [2, 3] rfl (by decide))))
+    (.base (.dispatch _ .remove [.create, .write] rfl))) (.base (.dispatch _ .create [.write] rfl)))
+    (.base (.dispatch _ .write [] rfl)))
+    (.base (.readEmpty _ ⟨0, 0, 1⟩ rfl rfl rfl))) (.base (.recvD _ rfl (by decide) rfl)))
+    (.base (.readSome _ ⟨1, 0, 0⟩ 2 rfl rfl (by decide) (by decide)))
+  exact ⟨_, hr, rfl, rfl, rfl⟩
+
+/-- **plain_rename_not_followed_counterexample** (expected behaviour of plain -f, recorded).  Without re-open
+    the Rename event is ignored: `[1]` delivered, the file renamed away, a new file `[2,3]` at the path – the
+    reader is back in its `select` with nothing pending, still holds the renamed file, the stream is `[1]`
+    and has not ended. -/
+theorem plain_rename_not_followed_counterexample :
+    ∃ s : NSt Nat, NReachR (srcN false) (ninit (some [1]) false) s ∧ s.delivered = [1] ∧
+      s.f = some ⟨0, 0, 1⟩ ∧ s.fs.path = some 1 ∧ s.fs.content 1 = [2, 3] ∧
+      s.rd = .selecting ∧ s.pw = 0 ∧ s.pd = 0 ∧ s.evq = [] := by
+  have hr : NReachR (srcN false) (ninit (some [(1 : Nat)]) false) _ :=
+    .step (.step (.step (.step (.step (.step (.step (.step (.step (.step (.step (.step
+    (.refl (s0 := ninit (some [(1 : Nat)]) false))
+    (.base (.readSome _ ⟨0, 0, 0⟩ 1 rfl rfl (by decide) (by decide))))
+    (.rename _ 0 rfl)) (.base (.create _ rfl))) (.base (.append _ 1 [2, 3] rfl (by decide))))
+    (.base (.dispatch _ .other [.create, .write] rfl))) (.base (.dispatch _ .create [.write] rfl)))
+    (.base (.dispatch _ .write [] rfl)))
+    (.base (.readEmpty _ ⟨0, 0, 1⟩ rfl rfl rfl))) (.base (.recvW _ rfl (by decide))))
+    (.base (.readEmpty _ ⟨0, 0, 1⟩ rfl rfl rfl)))
+    (.base (.noise _))) (.base (.dispatch _ .other [] rfl))
+  exact ⟨_, hr, rfl, rfl, rfl, rfl, rfl, rfl, rfl, rfl⟩
 
 /-! ## in-place truncation (copytruncate rotation) – outside the property, behaviour recorded -/
 
